@@ -363,7 +363,10 @@ def lex_safe(F, rep, T):
         quoted = luatpl.render(s["value"]) == '"{raw:1}"'
         arms = [a for a in T.expr if a["label"] == "Str" and a["items"]]
         direct = bool(arms) and any(it[0] == "op" and it[1] == "Str" and it[2][1] == ("ast", "0") for it in arms[0]["items"])
-        rep.ob("LEX-SAFE", "Str|payload-alphabet", quoted and direct and not bad,
+        # the instance is "these characters can reach the Lua string raw": a known finding for backslash / line break must not
+        # hide the day a quote can get there too
+        key_bad = "".join({'"': "quote", "\\": "backslash", "\n": "LF", "\r": "CR"}[c] + "+" for c in bad).rstrip("+")
+        rep.ob("LEX-SAFE", "Str|payload-alphabet" + ("|" + key_bad if bad else ""), quoted and direct and not bad,
                "string literal payloads (token pattern %s) are written verbatim between double quotes; characters that cannot "
                "appear raw in a Lua short string but can appear in the payload: %s%s" % (
                    st["pattern"], [repr(c) for c in bad] or "none",
